@@ -195,7 +195,7 @@ theorem decided_means_body_not_evaluated (pre : List Pred) (hasReturn : Bool) (d
 theorem rf_decided_means_body_not_evaluated (pre post : List Pred) (lk : Lookup) (crud : Crud)
     (d : Decision) (h : decide pre = some d) :
     rfRun pre post lk crud = ⟨.decided d, [.preconditions]⟩ := by
-  simp [rfRun, h]
+  simp [rfRun, rfRunR, h]
 
 /-- … and in particular the cluster is not touched — not even by the kind-to-plural discovery
     of a Function without `apiConfig.plural`, and whether or not the cluster knows the kind -/
@@ -211,7 +211,7 @@ theorem postcondition_decided_means_return_not_evaluated (pre post : List Pred) 
     (d : Decision) (hpre : decide pre = none) (hlk : lk ≠ .unknownKind) (hok : crud.isOk = true)
     (h : decide post = some d) :
     (rfRun pre post lk crud).out = .decided d ∧ Ev.returnValue ∉ (rfRun pre post lk crud).trace := by
-  cases crud <;> cases lk <;> simp_all [rfRun, Crud.trace, Crud.isOk, Lookup.trace]
+  cases crud <;> cases lk <;> simp_all [rfRun, rfRunR, Crud.trace, Crud.isOk, Lookup.trace]
 
 /-- in particular for `deleteIfExists` with the object already gone (an Ok result that is the empty
     map): the postconditions are still evaluated and decide -/
@@ -219,14 +219,23 @@ theorem postconditions_checked_for_deleted_object (pre post : List Pred) (d : De
     (hpre : decide pre = none) (h : decide post = some d) :
     (rfRun pre post .notNeeded .deletedAbsent).out = .decided d ∧
     Ev.postconditions ∈ (rfRun pre post .notNeeded .deletedAbsent).trace := by
-  simp [rfRun, hpre, h, Crud.isOk, Crud.trace, Lookup.trace]
+  simp [rfRun, rfRunR, hpre, h, Crud.isOk, Crud.trace, Lookup.trace]
+
+/-- a ResourceFunction without `return`: the postconditions are evaluated all the same and a deciding
+    list gives the outcome; only when they continue is the (absent) return skipped -/
+theorem postconditions_checked_without_return (pre post : List Pred) (lk : Lookup) (crud : Crud)
+    (d : Decision) (hpre : decide pre = none) (hlk : lk ≠ .unknownKind) (hok : crud.isOk = true)
+    (h : decide post = some d) :
+    (rfRunR false pre post lk crud).out = .decided d ∧
+    Ev.postconditions ∈ (rfRunR false pre post lk crud).trace := by
+  cases crud <;> cases lk <;> simp_all [rfRunR, Crud.trace, Crud.isOk, Lookup.trace]
 
 /-- conversely the discovery does happen once the preconditions continue (the theorem above is not
     vacuous), and a failing discovery is an outcome of the body, never of the preconditions -/
 theorem continue_means_discovery_happens (pre post : List Pred) (crud : Crud) (h : decide pre = none) :
     rfRun pre post .unknownKind crud =
       ⟨.body "lookupFailed", [.preconditions, .locals, .apiConfig, .api]⟩ := by
-  simp [rfRun, h, Lookup.trace]
+  simp [rfRun, rfRunR, h, Lookup.trace]
 
 /-- conversely, "continue" does let the body run (so the two theorems above are not vacuous) -/
 theorem continue_means_body_evaluated (pre : List Pred) (h : decide pre = none) :
